@@ -46,6 +46,14 @@ class FaultyFile(io.RawIOBase):
             self.data += b[:j]
             self.calls.append(len(b))
             return j
+        if self.fail_at is not None and i == self.fail_at and self.mode == "blocking-continue":
+            # a non-blocking pipe / socket that is full: it takes j bytes, SAYS so in the exception, and works again later
+            j = min(self.partial if self.partial >= 0 else len(b) + self.partial, max(len(b) - 1, 0))
+            self.data += b[:j]
+            self.calls.append(len(b))
+            import errno
+
+            raise BlockingIOError(errno.EAGAIN, "write could not complete without blocking", j)
         if self.fail_at is not None and i == self.fail_at:
             j = min(self.partial if self.partial >= 0 else len(b) + self.partial, max(len(b) - 1, 0))
             self.data += b[:j]
@@ -281,9 +289,10 @@ def run(tier):
                                   "obs": {"yielded": len(out), "identical": identical(out, written) and data.startswith(disk), "how": how}})
                     meta.append({"kind": "fault:" + mode, "stream": si, "call": k, "partial": partial, "disk": len(disk), "exc": exc})
         # (c2) a SHORT write after which the writer lives on: one fp.write call takes only part of its data and says so
-        for k in range(ncalls):
-            for partial in (0, 1, 2, 3, -1, -2, -4):
-                ff = FaultyFile(k, partial, "short-continue")
+        for k, partial, cmode in [(k, partial, "short-continue") for k in range(ncalls) for partial in (0, 1, 2, 3, -1, -2, -4)] + \
+                                 [(k, partial, "blocking-continue") for k in range(ncalls) for partial in (1, 3, -1)]:
+            if True:
+                ff = FaultyFile(k, partial, cmode)
                 w = RecordStreamWriter(ff)
                 wrote_all = True
                 try:
@@ -300,7 +309,7 @@ def run(tier):
                     slay = lay                 # not even a frame sequence any more: judged against the intended layout
                 cases.append({"layout": slay if wrote_all else lay, "cut": len(disk), "pin_boundary": True, "raw": wrote_all, "calls_comparable": False, "calls": [],
                               "obs": {"yielded": len(out), "identical": identical(out, written), "how": how}})
-                meta.append({"kind": "short-continue", "stream": si, "call": k, "partial": partial, "disk": len(disk), "exc": exc, "writer_went_on": wrote_all})
+                meta.append({"kind": cmode, "stream": si, "call": k, "partial": partial, "disk": len(disk), "exc": exc, "writer_went_on": wrote_all})
         # (c3) a file object that takes at most n bytes per call, for every call: the stream must come out byte for byte the same
         for nmax in (1, 2, 3, 5, 64):
             dr = Dribble(nmax, 3 * len(data) + 1000)
